@@ -29,9 +29,18 @@ def reset_menu():
     Menu.field_info = copy.deepcopy(pristine_table())
 
 
+def key_overwritten(names):
+    """a header field is named like a key of the database without being of that key's class (e.g. a field `Y` next to the
+    species `Y(...)`): the tool registers it under its own name, over the database entry"""
+    t = pristine_table()
+    return any(f in t and not re.search(t[f][0], f) for f in names)
+
+
 def listing_ok(listed, names):
     """every field of the header is shown exactly once: under its own name or under the name of its class (a class is
     shown once for all its fields), nothing twice, nothing that is neither a field nor a class of a field"""
+    if not key_overwritten(names):
+        return False        # no field overwrites a key of the database: the classification is the database's
     classes = {classify(f)[0] for f in names}
     return (all(f in listed or classify(f)[0] in listed for f in names) and len(listed) == len(set(listed))
             and all(l in names or l in classes for l in listed))
@@ -183,7 +192,7 @@ def run_spec(ctx, rep, spec, model, only=None):
     nf = len(names)
     has_species = any(re.search(r"^Y\(.+\)$", f) for f in names)
     nontriv = nf % 2 == 1 or not has_species or len(spec["levels"]) >= 2 or spec["data"]["mode"] == "bits"
-    tools = ["minuterie", "menu", "menu-mm", "menu-finest", "menu-mm-finest", "menu-mm-desc", "menu-desc", "menu-has", "marinate"]
+    tools = ["minuterie", "menu", "menu-mm", "menu-finest", "menu-mm-finest", "menu-mm-desc", "menu-desc", "menu-has", "menu-every", "marinate"]
     reqs = []
     for tool in tools:
         if only is not None and tool != only:
@@ -231,11 +240,31 @@ def run_spec(ctx, rep, spec, model, only=None):
                 got = [l.split(" : ")[0].rstrip() for l in out.split("\n") if " : " in l]
                 if sorted(got) != sorted(want) and not listing_ok(got, names):
                     rep.fail(f"description listing shows {got}, expected {want}", case)
+            elif tool == "menu-every":
+                # every entry of the database and every other field of the header, each with whether it is in the plotfile
+                out = run_main(menucli, ["menu", path, "-e"])
+                rows = re.findall(r"^(\S+)\s+(Yes|No) :", out, flags=re.M)
+                present = {classify(f)[0] for f in names}
+                if key_overwritten(names):
+                    rep.count("every-skipped-key-named-field"); continue
+                seen = [r for r, _ in rows]
+                bad = [f"{r}: shown {flag}, is {'in' if r in present else 'not in'} the plotfile" for r, flag in rows
+                       if (flag == "Yes") != (r in present)]
+                bad += [f"{c}: not listed" for c in present if c not in seen]
+                bad += [f"{r}: listed {seen.count(r)} times" for r in set(seen) if seen.count(r) > 1]
+                if bad:
+                    rep.fail(f"--every table: {bad[:4]}", case)
             elif tool == "menu-has":
                 probe = [classify(names[0])[0], "no_such_class"]
                 out = run_main(menucli, ["menu", path, "-hv", ",".join(probe)])
                 if f"'{probe[0]}' found" not in out or f"'{probe[1]}' not found" not in out:
                     rep.fail(f"--has_var reports {out.strip()[:120]!r}", case)
+                if not key_overwritten(names):
+                    for cl in sorted({classify(f)[0] for f in names}):
+                        reset_menu()
+                        out = run_main(menucli, ["menu", path, "-hv", cl])
+                        if f"'{cl}' found" not in out:
+                            rep.fail(f"--has_var {cl}: reports {out.strip()[:120]!r} although the header holds a field of that class", case)
             elif tool == "marinate":
                 if spec["ndims"] != 3:
                     rep.count("marinate-2d-skipped")
